@@ -129,6 +129,7 @@ def gen_dense(rnd, hid, mods, flags, depth):
     types = []               # names registered in session 1 (ids 1..)
     comps = set()            # (tid, eid)
     subs = set()             # (conn, tid)
+    known = {}               # conn -> entity ids it has moved or owned in session 1
 
     def req(c, **r):
         n[0] += 1
@@ -175,6 +176,33 @@ def gen_dense(rnd, hid, mods, flags, depth):
             n[0] += 1
             steps.append({"step": "Req", "conn": rnd.choice(conns), "req": gen_req(rnd, k, n[0], 4, {})})
             continue
+        away = [q for q in conns if joined.get(q) == 2]
+        if away and x < 0.24:
+            # a connection that switched to another session keeps naming what it knew in the first one (its former
+            # entities, the others', the members): none of it may take effect there, and ids coincide across sessions
+            d = rnd.choice(away)
+            old = sorted(known.get(d, set()) | set(ents)) or [1]
+            k = rnd.choice(["Pose", "Pose", "EntityDelete", "Action", "AssetAdd", "CompUpdate", "Custom", "EntityAdd", "Pose2"])
+            if k == "Pose":
+                parked(d, k="Pose", eid=rnd.choice(old), px=rnd.choice([1, 2, 3, 4, 5, 6, 7]))
+                steps.append({"step": "Tick", "sid": 2}); steps.append({"step": "Proc", "conn": d})
+            elif k == "Pose2":
+                req(d, k="EntityAdd", persist=False, flag=0, px=1)
+                parked(d, k="Pose", eid=1, px=rnd.choice([2, 3, 4]))
+                steps.append({"step": "Tick", "sid": 2}); steps.append({"step": "Proc", "conn": d})
+            elif k == "EntityDelete":
+                req(d, k="EntityDelete", eid=rnd.choice(old))
+            elif k == "Action":
+                req(d, k="Action", eid=rnd.choice(old), name="x", ats=rnd.choice([2, 3, 4]), data=1, has=True)
+            elif k == "AssetAdd":
+                req(d, k="AssetAdd", eid=rnd.choice(old), asset="m")
+            elif k == "CompUpdate":
+                parked(d, k="CompUpdate", tid=1, eid=rnd.choice(old), data=3)
+            elif k == "Custom":
+                req(d, k="Custom", len=5, dig=n[0], to=rnd.choice([[], [1, 2, 3, 4]]))
+            else:
+                req(d, k="EntityAdd", persist=rnd.random() < 0.3, flag=0, px=2)
+            continue
         c = rnd.choice(ms)
         mine = [e for e, (o, p) in ents.items() if o == c]
         free = [q for q in conns if joined.get(q) != 1]
@@ -195,6 +223,7 @@ def gen_dense(rnd, hid, mods, flags, depth):
             req(c, k="EntityAdd", persist=p, flag=rnd.choice([0, 1]), px=rnd.choice([1, 2, 3]))
             ecur[0] += 1
             ents[ecur[0]] = (c, p)
+            known.setdefault(c, set()).add(ecur[0])
         elif op == "tadd":
             nm = ["a", "b", "c"][len(types)] if rnd.random() < 0.8 else rnd.choice(["a", "b"])
             req(c, k="TypeAdd", name=nm)
@@ -232,7 +261,15 @@ def gen_dense(rnd, hid, mods, flags, depth):
                 if k[1] == e:
                     comps.discard(k)
         elif op == "pose":
-            parked(c, k="Pose", eid=rnd.choice(mine), px=rnd.choice([1, 2, 3, 4, 5, 6, 7]))
+            e = rnd.choice(mine)
+            parked(c, k="Pose", eid=e, px=rnd.choice([1, 2, 3, 4, 5, 6, 7]))
+            known.setdefault(c, set()).add(e)
+            if rnd.random() < 0.25 and len(ms) > 1:
+                # the last thing before it goes elsewhere: a switch right after a pose of its own entity
+                steps.append({"step": "Tick", "sid": 1}); steps.append({"step": "Proc", "conn": c})
+                req(c, k="Join", sid=0)
+                leave(c)
+                joined[c] = 2
         elif op == "custom":
             req(c, k="Custom", len=rnd.choice([1, 5, 10240, 10241]), dig=n[0], to=rnd.choice([[], [], [1, 2], [2, 3, 2], [9]]))
         elif op == "action":
